@@ -437,11 +437,13 @@ impl Builder {
             other => concat.add(self.build(other)),
           }
           if observed {
-            let _ = concat.size();
-            let _ = concat.source().len();
-            let _ = crate::exec::fx_hash(&concat);
-            #[allow(clippy::eq_op)]
-            let _ = concat == concat;
+            let _ = std::panic::catch_unwind(std::panic::AssertUnwindSafe(|| {
+              let _ = concat.size();
+              let _ = concat.source().len();
+              let _ = crate::exec::fx_hash(&concat);
+              #[allow(clippy::eq_op)]
+              let _ = concat == concat;
+            }));
           }
         }
         concat
@@ -485,11 +487,15 @@ impl Builder {
           Some(k) if (*k as usize) <= calls.len() => {
             apply_calls(&mut r, &calls[..*k as usize]);
             // observe every view once (fills whatever the value memoises)
-            let _ = r.source();
-            let _ = r.size();
-            let _ = r.buffer();
-            let _ = r.rope().len();
-            let _ = crate::exec::fx_hash(&r);
+            // (a panic here is not the builder's business: the checks that
+            // use the value will meet it again inside their own guards)
+            let _ = std::panic::catch_unwind(std::panic::AssertUnwindSafe(|| {
+              let _ = r.source();
+              let _ = r.size();
+              let _ = r.buffer();
+              let _ = r.rope().len();
+              let _ = crate::exec::fx_hash(&r);
+            }));
             apply_calls(&mut r, &calls[*k as usize..]);
           }
           _ => apply_calls(&mut r, calls),
